@@ -183,7 +183,7 @@ def writeEncoding (u : Option String) : Encoding → LoadM XmlNode
        then [("byteOrder", e.byteOrder.getD "None")] else [])
     pure (mkEl u "StringDataEncoding" attrs [sizeEl])
   | .bin e => do
-    if optTruthy e.fixedSize then
+    if e.fixedSize.isSome then           -- `is not None` (after the `fix:` commit recorded in DESIGN.md §14): 0 is written
       pure (mkEl u "BinaryDataEncoding" [] [mkEl u "SizeInBits" [] [mkEl u "FixedValue" [] [] (some (toString (e.fixedSize.getD 0)))]])
     else
       let dv := if strTruthy e.sizeRef then
